@@ -1432,13 +1432,18 @@ namespace link_layer {
         static constexpr delta_time maximum_transmit_window_offset( 10 * 1000 );
         static constexpr delta_time maximum_connection_timeout( 32 * 1000 * 1000 );
         static constexpr delta_time minimum_connection_timeout( 100 * 1000 );
+        static constexpr delta_time maximum_connection_interval( 4 * 1000 * 1000 );
+        static constexpr delta_time minimum_connection_interval( 7500 );
 
+        // the latency has to be checked first, to keep the product below from overflowing
         return transmit_window_size_ <= maximum_transmit_window_offset
             && transmit_window_size_ <= connection_interval_
+            && connection_interval_ >= minimum_connection_interval
+            && connection_interval_ <= maximum_connection_interval
             && connection_timeout_ >= minimum_connection_timeout
             && connection_timeout_ <= maximum_connection_timeout
-            && connection_timeout_ >= ( peripheral_latency_ + 1 ) * 2 * connection_interval_
-            && peripheral_latency_ <= maximum_link_layer_peripheral_latency;
+            && peripheral_latency_ <= maximum_link_layer_peripheral_latency
+            && connection_timeout_ > ( peripheral_latency_ + 1 ) * 2 * connection_interval_;
     }
 
     template < class Server, template < std::size_t, std::size_t, class > class ScheduledRadio, typename ... Options >
@@ -1455,7 +1460,11 @@ namespace link_layer {
         timeout_value_          = read_16bit( &valid_connect_request_body[ 26 ] );
         connection_timeout_     = delta_time( timeout_value_ * 10000 );
 
-        return transmit_window_offset <= connection_interval_ && check_timing_paremeters();
+        // Vol 6, Part B, 4.5.3: transmitWindowSize is in the range of 1.25 ms to the lesser of 10 ms and ( connInterval - 1.25 ms )
+        return transmit_window_offset <= connection_interval_
+            && !transmit_window_size_.zero()
+            && transmit_window_size_ < connection_interval_
+            && check_timing_paremeters();
     }
 
     template < class Server, template < std::size_t, std::size_t, class > class ScheduledRadio, typename ... Options >
